@@ -3,12 +3,12 @@ CONSTRAINT TraceConstraint
 POSTCONDITION TraceAccepted
 CHECK_DEADLOCK FALSE
 INVARIANTS
-  C06_MandatoryLocalPref
+  C06_MandatoryLocalPref_KF
   C06_NeverWeaker_KF
   C06_TawRemovesAll_KF
   C06_NeverInstalledMalformed_KF
   C06_MandatoryPresent_KF
-  C06_ResetOnlyIfCalledFor
-  C06_Code
+  C06_ResetOnlyIfCalledFor_KF
+  C06_Code_KF
   C06_ResetRemovesAll
-  C06_WellFormedNotPenalised
+  C06_WellFormedNotPenalised_KF
